@@ -56,7 +56,7 @@ REQUIRED_ORACLES = ["calc_matA:vs-born", "calc_vecB:vs-born", "calc_matA:columns
                     "experiment.calc_prob_dist:vs-model", "calc_prob_dists:vs-born", "calc_prob_dist:vs-born",
                     "is_fullrank_matA", "matA:full-column-rank-iff-IC", "num_variables", "num_outcomes",
                     "qmpt:circuit-outcome-order"]
-MIN_EVALS = {"quick": 20000, "thorough": 200000}
+MIN_EVALS = {"quick": 200000, "thorough": 3000000}
 WATCHDOG = {"quick": 900, "thorough": 3600}
 ASSUMPTIONS = [
     "var(o) is read with quara's own to_var()/to_stacked_vector() (variables <-> objects is property C03); the unit-vector "
@@ -387,7 +387,12 @@ def install(ctx):
         else:
             r, decided = rank_zones(A)
         if rows < meta.nvar:
-            want, cls = False, "fewer-rows-than-variables"
+            # A wide matrix cannot have full column rank, but such tester sets are not informationally complete
+            # and the statement only promises "full column rank whenever the tester set is IC"; what the function
+            # (which tests rank == min(shape)) answers here is recorded, not judged.
+            ctx.count("recorded-not-judged:is_fullrank_matA:fewer-rows-than-variables:" + ("True" if result else "False"))
+            ctx.skip("is_fullrank_matA")
+            return
         elif not decided:
             ctx.skip("is_fullrank_matA")
             return
